@@ -11,7 +11,7 @@ variable {N : NumOps} {Q : QRel} {cx : Cx} {β : CellRel}
 
 /-- the call handler maps related closures / states to related results -/
 def CallOK (Q : QRel) (cx : Cx) (call : CallFn N) : Prop :=
-  ∀ (β : CellRel) c c' args σ σ', CRel Q β c c' → SRel Q cx β σ σ' → RRel Q cx β AEq (call c args σ) (call c' args σ')
+  ∀ (β : CellRel) c c' args σ σ', CRel Q cx β c c' → SRel Q cx β σ σ' → RRel Q cx β AEq (call c args σ) (call c' args σ')
 
 /-- closes a leaf goal `RRel Q cx β AEq (.ok a σ₁) (.ok a σ₂)` etc. from an `SRel` hypothesis in context -/
 macro "rr_leaf" : tactic => `(tactic| first
@@ -222,20 +222,20 @@ theorem unopVal_param (hc : CallOK Q cx call) (d : Nat) (op : UnOp) (a : Val N) 
       · exact RRel.bindEq (callVal_param hc _ _ _ h) fun _ _ _ _ _ hs => RRel.okEq hs
 
 /-- a target that may be stored to when the names in `D` are dead -/
-def TargetOK (D : List String) : Target N → Prop
-  | .var n => n ∉ D
+def TargetOK (D : List DName) : Target N → Prop
+  | .var n => DName.ref n ∉ D ∧ DName.wat n ∉ D
   | .slot _ _ => True
 
-theorem storeTarget_param (hc : CallOK Q cx call) (k : Nat) {D : List String} {env env' : Env N}
-    (he : EnvRel β D env.locals env'.locals) (tg : Target N) (htg : TargetOK D tg) (v : Val N)
+theorem storeTarget_param (hc : CallOK Q cx call) (k : Nat) {D : List DName} {env env' : Env N}
+    (he : LocOK cx β D env.locals env'.locals) (tg : Target N) (htg : TargetOK D tg) (v : Val N)
     {σ σ' : State N} (h : SRel Q cx β σ σ') :
     RRel Q cx β AEq (storeTarget call ρ k env tg v σ) (storeTarget call ρ k env' tg v σ') := by
   cases tg <;> simp only [storeTarget]
-  · exact RRel.okEq (h.assignVar he htg _)
+  · exact RRel.okEq (h.assignVar he htg.1 htg.2 _)
   · exact setIndexVal_param hc _ _ _ _ h
 
-theorem storeTargets_param (hc : CallOK Q cx call) (k : Nat) {D : List String} {env env' : Env N}
-    (he : EnvRel β D env.locals env'.locals) (tgs : List (Target N)) (htg : ∀ tg ∈ tgs, TargetOK D tg)
+theorem storeTargets_param (hc : CallOK Q cx call) (k : Nat) {D : List DName} {env env' : Env N}
+    (he : LocOK cx β D env.locals env'.locals) (tgs : List (Target N)) (htg : ∀ tg ∈ tgs, TargetOK D tg)
     (vs : List (Val N)) {σ σ' : State N} (h : SRel Q cx β σ σ') :
     RRel Q cx β AEq (storeTargets call ρ k env tgs vs σ) (storeTargets call ρ k env' tgs vs σ') := by
   induction tgs generalizing vs with
